@@ -55,10 +55,12 @@ def run(tier: str) -> int:
     events, meta = [], []
     for d, Q in core.query_classes().items():
         ld = core.lex_dialect(d)
-        for h in hs:
+        for h in hs + ([dict(x, siblings=True) for x in hs] if d in ("generic", "mssql") else []):
             env = execb.Env(Q)
             try:
-                q, excs = env.run(h["hist"])
+                # second pass (two dialects): the same chain inside a branching history - sibling continuations are derived from
+                # every intermediate builder and discarded; what they select or group by must not show up here
+                q, excs = env.run(h["hist"], decoys=bool(h.get("siblings")))
             except core.MachineryError:
                 raise
             exc, text = next((e for e in excs if e), ""), ""
@@ -84,7 +86,10 @@ def run(tier: str) -> int:
             d, h, text = meta[v["tid"]]
             dk = "no-groupby-alias" if d in ("mssql", "oracle") else "groupby-alias"
             for fault, clause, alias in sorted(v["bad"]):
-                rep.discrepancy([[h["cls"], h["pos"], fault, clause, dk if "groupby" in h["pos"] else "any-dialect"]],
+                rep.discrepancy([[h["cls"], h["pos"], fault, clause, dk if "groupby" in h["pos"] else "any-dialect"] + (["with-sibling-continuations"] if h.get("siblings") else [])]
+                                if not h.get("siblings") else
+                                [[h["cls"], h["pos"], fault, clause, dk if "groupby" in h["pos"] else "any-dialect"],
+                                 [h["cls"], h["pos"], fault, clause, dk if "groupby" in h["pos"] else "any-dialect", "with-sibling-continuations"]],
                                 {"dialect": d, "class": h["cls"], "position": h["pos"], "sql": text, "expected": v["want"], "observed": events[v["tid"]]["aliases"]},
                                 what=f"alias {fault} in {clause or 'statement'}")
     for k in (0, len(meta) // 2, len(meta) - 1):
